@@ -221,7 +221,8 @@ func genScripted(g *hx.Gen, n int) {
 		}
 		var script []string
 		step := 0
-		res, x := runScripted("u", auth, acb, func(x *session) (string, bool) {
+		user := hx.Hex([]byte(hx.Pick(r, sauth.Users)))
+		res, x := runScripted(user, auth, acb, func(x *session) (string, bool) {
 			if len(script) >= 400 {
 				return "", false
 			}
@@ -246,9 +247,9 @@ func genScripted(g *hx.Gen, n int) {
 			s = strings.Join(script, ";")
 		}
 		if acb != "" {
-			g.Emit("cauth user=u auth=%s acb=%s script=%s", auth, acb, s)
+			g.Emit("cauth user=%s auth=%s acb=%s script=%s", user, auth, acb, s)
 		} else {
-			g.Emit("cauth user=u auth=%s script=%s", auth, s)
+			g.Emit("cauth user=%s auth=%s script=%s", user, auth, s)
 		}
 	}
 }
@@ -279,15 +280,15 @@ func genPick(g *hx.Gen) {
 	for _, s := range signers {
 		for _, e := range exts {
 			// rejected query (compat path for RSA certificates), then accepted query + success
-			g.Emit("cauth user=u auth=pk:%s script=%ssa;f:publickey:0;f:publickey:0;ok.e;s", s, e)
-			g.Emit("cauth user=u auth=pk:%s script=%ssa;f:publickey:0;ok.e;s", s, e)
+			g.Emit("cauth user=75 auth=pk:%s script=%ssa;f:publickey:0;f:publickey:0;ok.e;s", s, e)
+			g.Emit("cauth user=75 auth=pk:%s script=%ssa;f:publickey:0;ok.e;s", s, e)
 			g.Stat("pick-table")
 		}
 	}
 	// two signers that cannot negotiate (known finding: the second is offered with an empty algorithm)
 	for _, e := range []string{"", "x7:ssh-ed25519;"} {
-		g.Emit("cauth user=u auth=pk:4~ssh-rsa~m,rsa-sha2-256+4~ssh-rsa~m,rsa-sha2-512+1~ssh-ed25519~d script=%ssa;f:publickey:0;f:publickey:0;ok.e;s", e)
-		g.Emit("cauth user=u auth=pk:6~ssh-rsa-cert-v01@openssh.com~m,rsa-sha2-256+4~ssh-rsa~m,rsa-sha2-512 script=%ssa;f:publickey:0;ok.t;s", e)
+		g.Emit("cauth user=75 auth=pk:4~ssh-rsa~m,rsa-sha2-256+4~ssh-rsa~m,rsa-sha2-512+1~ssh-ed25519~d script=%ssa;f:publickey:0;f:publickey:0;ok.e;s", e)
+		g.Emit("cauth user=75 auth=pk:6~ssh-rsa-cert-v01@openssh.com~m,rsa-sha2-256+4~ssh-rsa~m,rsa-sha2-512 script=%ssa;f:publickey:0;ok.t;s", e)
 		g.Stat("no-common-algo-x2")
 	}
 }
